@@ -88,7 +88,9 @@ URL_IN_TEXT_RE = re.compile(
 URL_IN_HTML = r"""<a[^>]*\shref=(?:"([^"]*)"|'([^']*)'|([^\s>]*))[^>]*>"""
 URL_IN_HTML_BINARY = URL_IN_HTML.encode()
 
-URL_IN_HTML_RE = re.compile(URL_IN_HTML, re.I)
+# NOTE: re.A so that \s means the same as in the binary pattern (html whitespace
+# is ascii, U+00A0 does not separate attributes)
+URL_IN_HTML_RE = re.compile(URL_IN_HTML, re.I | getattr(re, "A", 0))
 URL_IN_HTML_BINARY_RE = re.compile(URL_IN_HTML_BINARY, re.I)
 
 QUERY_VALUE_IN_URL_TEMPLATE = r"(?:^|[?&])(%s)=([^&]+)"
